@@ -1716,7 +1716,16 @@ namespace jsoncons {
                     }
                     break;
                 case json_storage_kind::null:
-                    return static_cast<int>(storage_kind()) - static_cast<int>(rhs.storage_kind());
+                    switch (rhs.storage_kind())
+                    {
+                        case json_storage_kind::const_json_ref:
+                            return compare(rhs.cast<const_json_ref_storage>().value());
+                        case json_storage_kind::json_ref:
+                            return compare(rhs.cast<json_ref_storage>().value());
+                        default:
+                            return static_cast<int>(storage_kind()) - static_cast<int>(rhs.storage_kind());
+                    }
+                    break;
                 case json_storage_kind::empty_object:
                     switch (rhs.storage_kind())
                     {
